@@ -36,6 +36,10 @@ def gen_cost(rng, dim, models=None, vector=False):
         p = gen_quad(rng, dim)
         k = rng.randrange(1, max(2, dim))
         p['flat'] = sorted(rng.sample(range(dim), min(k, dim - 1) if dim > 1 else 0))
+    elif m == 'slab':
+        p = gen_quad(rng, dim)
+        lo = r2(rng, -2, 2); p['slab'] = [lo, lo + rng.choice([0.5, 1.0, 2.0])]
+        p['i'] = rng.randrange(dim); p['H'] = rng.choice([10.0, 100.0, 1e4])
     elif m == 'tied':
         p = gen_quad(rng, dim)
         i, j = rng.sample(range(dim), 2) if dim > 1 else (0, 0)
@@ -160,7 +164,7 @@ def compatible(con, box):
         return all(a == 1.0 and b == 0.0 and lo[j] <= lo[i] and hi[i] <= hi[j] for (i, j, a, b) in p['ties'])
     if fam == 'sort':
         return len(set(lo)) == 1 and len(set(hi)) == 1
-    if fam == 'identity': return True
+    if fam in ('identity', 'measure_norm'): return True
     if fam == 'chain':
         return all(compatible(c, box) for c in p['of'])
     return False
